@@ -232,6 +232,7 @@ func c07Default(c *cx) {
 	idTypFromOwnAttributes(c, "C07.8")
 	fromBlankedOnlyForOwnBare(c, "C07.9")
 	attrCopyLoopsComplete(c, "C07.10")
+	c07DetectorCountsAcceptedTokens(c, "C07.11")
 	for _, ce := range g.EdgesMatching("!eq(internal/attr.Own(*.Attr,\"from\")#1,\"\")") {
 		from := g.EdgeTarget(ce.E)
 		isParse := func(q eng.Point, nd ast.Node) bool { return f.ContainsCall(nd, "jid.Parse") != nil }
@@ -322,11 +323,11 @@ func c07Detector(c *cx) {
 		case "++":
 			inc++
 			c.dom(id, f, w.Stmt, "level++", []string{"istype(*;encoding/xml.StartElement)"})
-			c.onlyFacts(id, f, w.Stmt, "level++", []string{"istype(*;encoding/xml.StartElement)"})
+			c.onlyFacts(id, f, w.Stmt, "level++", []string{"istype(*;encoding/xml.StartElement)", "eq(mellium.im/xmlstream.TokenWriter.EncodeToken[recv.TokenWriter](p0),nil)"})
 		case "--":
 			dec++
 			c.dom(id, f, w.Stmt, "level--", []string{"istype(*;encoding/xml.EndElement)"})
-			c.onlyFacts(id, f, w.Stmt, "level--", []string{"istype(*;encoding/xml.EndElement)"})
+			c.onlyFacts(id, f, w.Stmt, "level--", []string{"istype(*;encoding/xml.EndElement)", "eq(mellium.im/xmlstream.TokenWriter.EncodeToken[recv.TokenWriter](p0),nil)"})
 		default:
 			c.r.Check(id, f, "write to level", "level only changes by ++/--", w.Stmt.Pos(), false, "")
 		}
@@ -343,11 +344,37 @@ func c07Detector(c *cx) {
 			c.r.Check(id, f, "level tested before it is incremented", "O: the top-level test uses the depth before this start element", x.Stmt.Pos(), !g.Reachable(g.After(wp), xp, nil, nil), "level++ can precede the detection")
 		}
 	}
-	for _, rs := range g.Returns {
-		okf := len(rs.Results) == 1 && f.Norm(rs.Results[0], nil) == "mellium.im/xmlstream.TokenWriter.EncodeToken[recv.TokenWriter](p0)"
-		c.r.Check(id, f, "token forwarded", "every return forwards the unchanged token to the wrapped writer", rs.Pos(), okf, "returns "+c.p.NodeStr(rs))
+	// every path hands the unchanged token to the wrapped writer exactly as it
+	// came, and the writer's verdict is what EncodeToken returns: either the
+	// return is the forwarding call itself, or the call precedes the return on
+	// every path and the return yields its error (failure edge) or nil (success
+	// edge)
+	isFwd := func(q eng.Point, nd ast.Node) bool {
+		found := false
+		ast.Inspect(nd, func(x ast.Node) bool {
+			if cl, ok := x.(*ast.CallExpr); ok && f.Norm(cl, nil) == "mellium.im/xmlstream.TokenWriter.EncodeToken[recv.TokenWriter](p0)" {
+				found = true
+			}
+			return !found
+		})
+		return found
 	}
-	c.onlyFactsReturns(id, f)
+	fwdN := "mellium.im/xmlstream.TokenWriter.EncodeToken[recv.TokenWriter](p0)"
+	for _, rs := range g.Returns {
+		pt, _ := g.Where(rs)
+		okf := len(rs.Results) == 1 && f.Norm(rs.Results[0], nil) == fwdN
+		if !okf && len(rs.Results) == 1 && g.MustPassBefore(g.Entry(), pt, isFwd, nil) {
+			res := f.Norm(rs.Results[0], &pt)
+			if res == fwdN {
+				okf = true // the writer's error, through a local
+			}
+			if res == "nil" {
+				okf, _ = g.Dominated(pt, "eq("+fwdN+",nil)")
+			}
+		}
+		c.r.Check(id, f, "token forwarded", "every path forwards the unchanged token to the wrapped writer and returns the writer's verdict", rs.Pos(), okf, "returns "+c.p.NodeStr(rs))
+	}
+	c.onlyFactsReturnsAllow(id, f, []string{"eq(" + fwdN + ",nil)", "!eq(" + fwdN + ",nil)"})
 	// Encode / EncodeElement route through the detector
 	for _, k := range []struct{ fn, callee string }{
 		{"(*responseChecker).Encode", "internal/marshal.EncodeXML"},
@@ -367,6 +394,12 @@ func c07Detector(c *cx) {
 func (c *cx) onlyFactsReturns(id string, f *eng.Fn) {
 	for _, rs := range f.Graph().Returns {
 		c.onlyFacts(id, f, rs, "return", []string{})
+	}
+}
+
+func (c *cx) onlyFactsReturnsAllow(id string, f *eng.Fn, allowed []string) {
+	for _, rs := range f.Graph().Returns {
+		c.onlyFacts(id, f, rs, "return", allowed)
 	}
 }
 
@@ -445,8 +478,9 @@ func c07Fallback(c *cx) {
 // when handleInputStream returned io.EOF itself, the mark of the end of the
 // input stream. An error that merely wraps io.EOF (a handler that ran out of
 // tokens and wrapped the error) is a failure and must end in a stream error.
-func c07ServeEOF(c *cx) {
-	id := "C07.5"
+func c07ServeEOF(c *cx) { c07ServeEOFAs(c, "C07.5") }
+
+func c07ServeEOFAs(c *cx, id string) {
 	f := c.fn(id, "", "(*Session).Serve")
 	if f == nil {
 		return
@@ -487,4 +521,25 @@ func c07ServeEOF(c *cx) {
 		c.r.Check(id, f, "silent end of Serve", "G: after a step, Serve returns without a stream error only on the edge 'handleInputStream(...) == io.EOF' (identity, not errors.Is: wrapped EOFs come from handlers)", rs.Pos(), okd, why)
 	}
 	c.r.Floor(id, "silent returns after a step in Serve", n, 1)
+}
+
+// c07DetectorCountsAcceptedTokens (C07.11): the reply detector records what
+// was written: its nesting level and its reply-written flag change only for a
+// token that the wrapped encoder accepted (every write of responseChecker.level
+// and .wroteResp is dominated by a nil result of the wrapped EncodeToken).
+// Counting first and encoding afterwards lets a refused stray end element
+// lower the level, after which an iq nested in a wrapper counts as the reply.
+func c07DetectorCountsAcceptedTokens(c *cx, id string) {
+	f := c.fn(id, "", "(*responseChecker).EncodeToken")
+	if f == nil {
+		return
+	}
+	n := 0
+	for _, k := range []string{"xmpp.responseChecker.level", "xmpp.responseChecker.wroteResp"} {
+		for _, w := range f.FieldWrites(k) {
+			n++
+			c.domAny(id, f, w.Stmt, "write to "+k, []string{"eq(mellium.im/xmlstream.TokenWriter.EncodeToken[recv.TokenWriter](p0),nil)", "eq(*.EncodeToken[*](p0),nil)"})
+		}
+	}
+	c.r.Floor(id, "state writes of the reply detector", n, 3)
 }
